@@ -13,6 +13,8 @@ pub open spec fn be32(p: Seq<u8>, i: int) -> u32 {
 }
 pub open spec fn hi8(v: u16) -> u8 { (v >> 8) as u8 }
 pub open spec fn lo8(v: u16) -> u8 { (v & 0xff) as u8 }
+pub open spec fn b16(v: u16) -> Seq<u8> { seq![hi8(v), lo8(v)] }
+pub open spec fn b32(v: u32) -> Seq<u8> { seq![(v >> 24) as u8, ((v >> 16) & 0xff) as u8, ((v >> 8) & 0xff) as u8, (v & 0xff) as u8] }
 
 // R6: assert!/debug_assert! become a call with a precondition (so they are proof obligations)
 pub fn rt_assert(c: bool)
